@@ -11,7 +11,7 @@ STATS = G.STATS
 PARTIAL = [
     "process pools (multi.*Container.tessellate, voxelize with num_procs) are runtime behaviour: compared across num_procs in {1,2,4,8} by the harness in floating point; the Lean side only has 'an order preserving map is List.map'",
     "GEOMDL_CACHE_SIZE: the Lean theorem is about an abstract LRU cache of any capacity (functools.lru_cache itself is trusted); the harness imports the package in sub-interpreters under each setting and compares a fixed knot-operation scenario",
-    "surface / volume versions of the knot-range theorem are covered by correspondence + oracle only",
+    "knot range: proved for curve / surface / volume POINT evaluation (any increasing affine map per direction, and knotvector.normalize with the normalised parameter); that derivatives scale by the chain-rule factor and that insertion / refinement / split commute with the affine map are covered by correspondence + oracle only",
 ]
 TRUSTED = ["CPython functools.lru_cache implements the LRU contract", "multiprocessing.Pool.map preserves order"]
 OPS = {'curve': 'ceval', 'surface': 'seval', 'volume': 'veval'}
